@@ -632,3 +632,7 @@ package evaluator
 //@   requires receiver != nil && (objType == object.STR_OBJ ==> istype(receiver, *object.Str)) && (objType == object.INT_OBJ ==> istype(receiver, *object.Int))
 //@   ensures result1 == nil ==> result0 != nil
 //@   modifies nothing
+
+// declared assumption of the no-crash proofs: an allocation of at most this many bytes
+// succeeds (equal to evaluator.maxBuiltStringLen, the cap the built-ins enforce)
+//@ allocbound 67108864
